@@ -108,14 +108,18 @@ def _parse(
                 dt,
             )
 
-        return pendulum.interval(
-            pendulum.instance(
-                t.cast(datetime.datetime, parsed.start), tz=options.get("tz", UTC)
-            ),
-            pendulum.instance(
-                t.cast(datetime.datetime, parsed.end), tz=options.get("tz", UTC)
-            ),
+        start = pendulum.instance(
+            t.cast(datetime.datetime, parsed.start), tz=options.get("tz", UTC)
         )
+        end = pendulum.instance(
+            t.cast(datetime.datetime, parsed.end), tz=options.get("tz", UTC)
+        )
+
+        if (start.tzinfo is None) != (end.tzinfo is None):
+            # Can happen with tz=None
+            raise ParserError(f"Interval endpoints must both be naive or aware: {text}")
+
+        return pendulum.interval(start, end)
 
     if isinstance(parsed, Duration):
         return parsed
